@@ -380,3 +380,37 @@ def run_dynamic_bracketings(seed):
                              'msg': f'{[l.get("cls", l["k"]) for l in layers]} as {name}: {what} from the flat chain: {str(r)[:160]} vs {str(base)[:160]}'})
             break
     return problems
+
+
+def run_checkids_neutral(seed):
+    """C15 / C07: CheckIds is hash-transparent also for the layers stacked on top of it: inserting `CheckIds()` before a Filter / keep /
+    GroupBy changes no digest (of `ids`, of a field) and no value"""
+    from .pipeline import Builder
+    from .sym import SymWorld
+    rng = random.Random(seed)
+    world = SymWorld()
+    ids = [f'i{k}' for k in range(rng.randint(3, 5))]
+    src = {'k': 'source', 'cls': 'CN', 'ids': ids, 'fields': {'x': {'args': ['i'], 'f': 'CN.x'},
+                                                             'kk': {'args': ['i'], 'f': 'CN.kk', 'table': [[[i], 'gh'[n % 2]] for n, i in enumerate(ids)]}},
+           'params': {}, 'cargs': {}, 'defaults': {}}
+    top = rng.choice([[{'k': 'keep', 'ids': ids[:2]}], [{'k': 'groupby', 'by': 'kk'}],
+                      [{'k': 'filter', 'f': 'cnpred', 'args': ['kk'], 'table': [[['g'], True], [['h'], False]]}],
+                      [{'k': 'keep', 'ids': ids[:3]}, {'k': 'groupby', 'by': 'kk'}]])
+    recs = []
+    for guard in (False, True):
+        b = Builder(world)
+        b.ids_by_value = False
+        layers = [src] + ([{'k': 'check_ids'}] if guard else []) + top
+        try:
+            p = b.layer({'k': 'chain', 'flavour': 'chain', 'layers': layers})
+            f, g = p._compile('ids'), p._compile('x')
+            kept = f()
+            recs.append((digest_of(f, []), canon(val_to_json(kept, world)), digest_of(g, [kept[0]]), canon(val_to_json(g(kept[0]), world))))
+        except Exception as e:
+            recs.append(('ERR ' + exc_name(e),))
+    if recs[0] != recs[1]:
+        return [{'top': [t['k'] for t in top],
+                 'msg': f'CN >> {[t["k"] for t in top]} with and without CheckIds() before the dataset-wide layer: '
+                        f'{"digests differ (same values)" if len(recs[0]) > 1 and len(recs[1]) > 1 and recs[0][1::2] == recs[1][1::2] else "differ"}: '
+                        f'{str(recs[0])[:150]} vs {str(recs[1])[:150]}'}]
+    return []
